@@ -478,6 +478,71 @@ Definition svd_prog (mc : bool) (c : cfg) : prog :=
 Definition cp_normalize_prog (c : cfg) : prog :=
   mkprog [(vF, In_); (vW, In_)] cp_normalize_stmts [("weights", W_); ("factors", F_)].
 
+(* sample_khatri_rao (_cp.py): sampled_kr = tl.ones((n_samples, rank), **tl.context(matrices[0]));
+   sampled_kr = sampled_kr * matrix[indices, :] for every matrix; the index outputs are integer arrays *)
+Definition sample_kr_e (matrices : expr) : expr := Op (ctx_of matrices) matrices.
+Definition sample_kr_prog (c : cfg) : prog :=
+  mkprog [(vT, In_)] [] [("out0", sample_kr_e T_); ("out1", ints); ("out2", ints)].
+
+(* randomised_parafac (_cp.py): initialize_cp without mask / normalisation; weights = tl.ones(rank, **tl.context(tensor));
+   per mode: kr_prod = sample_khatri_rao(factors); sampled_unfolding = tensor[indices];
+   factor = transpose(solve(kr_prod^T kr_prod, kr_prod^T sampled_unfolding)); rec_error = norm(tensor - cp_to_tensor) / norm_tensor *)
+Definition plain (c : cfg) : cfg := mkcfg (c_fam c) (c_init c) false (c_errors c) false false false false PNone false false false.
+Definition rand_parafac_prog (c : cfg) : prog :=
+  mkprog
+    (cp_init_stmts true (plain c) false ++ [(vW, ctx_of T_); (vE, N_)])
+    [(vX, sample_kr_e F_);
+     (vF, Op (Op X_ X_) (Op X_ T_));
+     (vE, Div (norm (Op T_ (Op W_ F_))) N_)]
+    ([("weights", W_); ("factors", F_)] ++ when (c_errors c) [("errors", Var vE)]).
+
+(* parafac2 (_parafac2.py).  vT = the slices, vF = A, B, C (one variable), vC = projections, vS = projected tensor.
+   init 'random': random_parafac2(.., **context): projections = qr(tl.tensor(rng, **context)), random_cp(.., **context);
+   init 'svd': A = tl.ones(..., **context), B = tl.eye(rank, **context), C = svd_interface(unfolded)[0], weights None
+   (validated to ones in the context of the factors), projections = _compute_projections;
+   norm_tensor = sqrt(sum(norm(slice)**2)) (Python sum: 0 + ...).
+   sweep: factors[1] *= weights; weights = T.ones(shape, **context(slices[0])); projections from the SVD of
+   B (A*C)^T X_i^T; projected tensor = P_i^T X_i; factors from one run of parafac (c_alt = false) or
+   non_negative_parafac_hals (c_alt = true: nn_modes) on the projected tensor; line search on even iterations > 5
+   (extrapolated factors, recomputed projections); optional cp_normalize; reconstruction error / norm_tensor *)
+Definition vP := 14.  (* projected tensor *)
+Definition parafac2_prog (c : cfg) : prog :=
+  let P_ := Var vP in
+  let mttkrp := Op P_ (Op W_ F_) in
+  let pinv := Op3 W_ (Into (Op (ctx_of P_) (Op F_ F_)) PyI) W_ in
+  let proj := Op (Op F_ T_) (Op F_ T_) in
+  mkprog
+    ([(vT, In_)] ++
+     match c_init c with
+     | IRandom => [(vC, Op ctx ctx); (vF, ctx); (vW, ctx)]
+     | ISvd => svd_stmts T_ false ++ [(vF, Op ctx U_); (vW, ctx_of F_); (vC, proj)]
+     | IUser => [(vF, In_); (vW, In_); (vC, Op In_ In_)]
+     end ++
+     [(vN, ToFloat (Op PyI (norm T_))); (vE, N_)])
+    ([(vF, Op F_ W_); (vW, ctx_of T_)] ++
+     when (c_linesearch c) [(vFl, F_)] ++
+     [(vC, proj); (vP, Op C_ T_)] ++
+     (if c_alt c then [(vX, F_)] ++ hals_nnls_stmts mttkrp pinv ++ [(vF, Op X_ (Op pinv mttkrp))]
+      else [(vF, Op pinv mttkrp)]) ++
+     when (c_linesearch c) [(vF, Op (Var vFl) (Op (Op F_ (Var vFl)) PyF)); (vF, Op F_ PyI); (vC, proj)] ++
+     when (c_normalize c) cp_normalize_stmts ++
+     [(vE, Div (ToFloat (RealOf (Op (Op (Op N_ PyI) (Op (norm (Op W_ F_)) PyI)) (Op PyI (Op (Op P_ F_) W_))))) N_)])
+    ([("weights", W_); ("factors", F_); ("projections", C_)] ++ when (c_errors c) [("errors", Var vE)]).
+
+(* tensorly.random (random/base.py): random_cp / random_tucker / random_tt / random_tr / random_tt_matrix / random_parafac2 /
+   random_tensor.  Every array is tl.tensor(rng.random_sample(...), **context) or tl.ones(rank, **context).
+   c_alt = orthogonal (factors replaced by the Q of their QR; random_tucker re-wraps Q[:, :r] with a context-less tl.tensor,
+   which keeps the dtype of Q), c_normalize = normalise_factors (cp_normalize / parafac2_normalise), c_warm = non_negative
+   (random_tucker: abs of core and factors); the full=True result is the reconstruction from these *)
+Definition random_prog (c : cfg) : prog :=
+  mkprog
+    ([(vF, ctx); (vW, ctx); (vC, ctx)] ++
+     when (c_alt c) [(vF, Op F_ F_)] ++
+     when (c_warm c) [(vF, RealOf F_); (vC, RealOf C_)] ++
+     when (c_normalize c) cp_normalize_stmts)
+    []
+    [("*", W_); ("*", F_); ("*", C_); ("*", Op W_ F_); ("*", Op C_ F_)].
+
 (* shallow skeletons: the outputs are promotions / real parts of the inputs and of allocations in the input's context;
    the internal flow of these entry points is NOT transcribed (see the manifest) *)
 (* the slot name "*" stands for every array of the returned structure *)
@@ -502,16 +567,19 @@ Definition skeleton_v (mc : bool) (c : cfg) : prog :=
   | FAdmm => admm_prog c
   | FSvd => svd_prog mc c
   | FCpNormalize => cp_normalize_prog c
-  | FRandom => shallow c ctx                        (* random_*(..., **context): tl.tensor(rng..., **context) *)
+  | FRandom => random_prog c
+  | FRandParafac => rand_parafac_prog c
+  | FParafac2 => parafac2_prog c
   | FLeverage => shallow c (Leaf (LConst F64))      (* documented: tl.tensor(..., dtype=tl.float64) *)
-  | FSampleKR => mkprog [(vT, In_)] [] [("out0", Op (ctx_of T_) T_); ("out1", ints); ("out2", ints)]
+  | FSampleKR => sample_kr_prog c
   | FIndexed => mkprog [(vT, In_)] [] [("out0", Op T_ T_); ("out1", ints)]               (* congruence_coefficient: (value, permutation) *)
   | FPermute => mkprog [(vT, In_)] [] [("weights", Op T_ T_); ("factors", Op T_ T_); ("out1", ints)]  (* cp_permute_factors: (cp tensors, permutations) *)
   | FFlipSign => mkprog [(vT, In_)] [] [("weights", RealOf T_); ("factors", Op T_ (ctx_of T_))]  (* weights = abs(weights) *)
   | _ => pure_prog c
   end.
-(* the variant of the code the correspondence is run against *)
-Definition mask_cast_now : bool := false.
+(* the variant of the code the correspondence is run against: since the repair 45ef7df the four masked entry points
+   cast the mask into the data's context (mc = true); skeleton_v false is the code before that repair *)
+Definition mask_cast_now : bool := true.
 Definition skeleton (c : cfg) : prog := skeleton_v mask_cast_now c.
 
 (* the precision-relevant outputs of a skeleton: everything except integer index outputs and the documented
